@@ -235,6 +235,9 @@ namespace plan
     {
         PlanSpace p;
         size_t k = s.weighted({6, 3, 2, 2, allowCurves ? 2 : 0, allowCurves ? 1 : 0});
+        // exploration aid (never set by ./check): VF_FORCE_SPACE=Dubins|ReedsShepp pins the space family of a sweep
+        if (const char *fs = std::getenv("VF_FORCE_SPACE"))
+            k = std::string(fs) == "Dubins" ? (size_t)SP_DUBINS : std::string(fs) == "ReedsShepp" ? (size_t)SP_REEDSSHEPP : k;
         p.kind = (SpaceKind)k;
         ob::RealVectorBounds b2(2);
         b2.setLow(p.lo);
